@@ -1,4 +1,168 @@
-/- Model driver for C10 (stub: not built yet). -/
+/-
+Model driver for C10 (area assembly).  Same op lines as harness/c10.cpp:
+
+  seg ax ay bx by cx cy dx dy
+      -> "lt(s,t) lt(t,s) eq osx(s,t) osx(t,s) yro(s,t) yro(t,s) I(s,t) I(t,s) # case(s,t) case(t,s)"
+         I = "0" | "1:x:y" (collinear overlap: exact location) | "1:?" (proper crossing: the
+         returned point is a rounded float computation that is not modelled)
+  list x1 y1 x2 y2 ...   -> "sorted=<segs> erased=<segs> pairs=N overlap=N ix=N"
+  extract id:x:y ...     -> "segs=<segs> invalid=N dupnodes=N"
+  ring o|i x y x y ...   -> "sum=S cw=0|1 fixed=<points> fsum=S"
+  asm <mode> <cfg> w<id>:<role> id:x:y ...
+      -> what create_rings() decides BEFORE ring building:
+         "invalid=N nodes=N pairs=N overlap=N ix=N open=N touching=N remaining=N"
+  judge <mode> <cfg> w<id>:<role> id:x:y ... ## O:id@x@y,..|I:..|O:..
+      -> the executable specification `Valid` applied to the rings the real assembler
+         produced: "ok" or "bad:<failing clauses>"
+-/
+import Osmium.Model.Area
 import Driver.Common
 
-def main : IO Unit := pure ()
+open Osmium.Area Driver
+
+def showSeg (s : Seg) : String :=
+  s!"{s.first.x},{s.first.y},{s.second.x},{s.second.y}"
+
+def showSegs (l : List Seg) : String :=
+  if l.isEmpty then "-" else ";".intercalate (l.map showSeg)
+
+def caseName : IsectCase → String
+  | .same => "same"
+  | .endpointTouch => "endpoint-touch"
+  | .cross => "cross"
+  | .miss => "miss"
+  | .parallel => "parallel"
+  | .collinearTouch => "collinear-touch"
+  | .collinearApart => "collinear-apart"
+  | .overlap _ => "overlap"
+
+def showIsect : IsectCase → String
+  | .cross => "1:?"
+  | .overlap v => s!"1:{v.x}:{v.y}"
+  | _ => "0"
+
+def ints (ws : List String) : Option (List Int) := ws.mapM String.toInt?
+
+def segsOfInts : List Int → Option (List Seg)
+  | [] => some []
+  | a :: b :: c :: d :: rest => (segsOfInts rest).map (Seg.ofEnds ⟨a, b⟩ ⟨c, d⟩ :: ·)
+  | _ => none
+
+def pointsOfInts : List Int → Option (List Vec)
+  | [] => some []
+  | a :: b :: rest => (pointsOfInts rest).map (⟨a, b⟩ :: ·)
+  | _ => none
+
+def parseNode (tok : String) : Option Node :=
+  match tok.splitOn ":" with
+  | [i, x, y] => do
+    let i ← i.toInt?
+    let x ← x.toInt?
+    let y ← y.toInt?
+    some ⟨i, ⟨x, y⟩⟩
+  | _ => none
+
+/-- (way id, nodes) list from "w<id>:<role> node node ... w<id>:<role> ..." -/
+def parseWays (toks : List String) : Option (List (Int × List Node)) :=
+  let r := toks.foldl (fun (acc : Option (List (Int × List Node))) tok =>
+    match acc with
+    | none => none
+    | some ws =>
+      if tok.startsWith "w" then
+        match ((tok.drop 1).toString.splitOn ":") with
+        | [i, _] => (i.toInt?).map fun i => (i, []) :: ws
+        | _ => none
+      else
+        match ws, parseNode tok with
+        | (i, ns) :: more, some n => some ((i, n :: ns) :: more)
+        | _, _ => none) (some [])
+  r.map fun ws => (ws.map fun (i, ns) => (i, ns.reverse)).reverse
+
+/-- the ways the assembler extracts segments from: mode w = the first way only; relation
+    modes = members in order, a way id that occurred before is skipped (duplicate_ways) -/
+def effectiveWays (mode : String) (ways : List (Int × List Node)) : List (List Node) :=
+  if mode == "w" || mode == "v" then (ways.take 1).map (·.2)
+  else
+    (ways.foldl (fun (acc : List Int × List (List Node)) w =>
+      if acc.1.contains w.1 then acc else (w.1 :: acc.1, acc.2 ++ [w.2])) ([], [])).2
+
+def parseRing (tok : String) : Option (Bool × List Vec) :=
+  match tok.splitOn ":" with
+  | [k, pts] => do
+    let ps ← (pts.splitOn ",").mapM fun p =>
+      match p.splitOn "@" with
+      | [_, x, y] => do
+        let x ← x.toInt?
+        let y ← y.toInt?
+        some (⟨x, y⟩ : Vec)
+      | _ => none
+    some (k == "O", ps)
+  | _ => none
+
+def buildMP : List (Bool × List Vec) → MP → Option MP
+  | [], acc => some acc.reverse
+  | (true, pts) :: rest, acc => buildMP rest (⟨pts, []⟩ :: acc)
+  | (false, pts) :: rest, o :: acc => buildMP rest ({ o with inners := o.inners ++ [pts] } :: acc)
+  | (false, _) :: _, [] => none
+
+def parseMP (tok : String) : Option MP :=
+  if tok == "-" || tok == "" then some [] else do
+    let rs ← (tok.splitOn "|").mapM parseRing
+    buildMP rs []
+
+def showPoints (l : List Vec) : String :=
+  ";".intercalate (l.map fun v => s!"{v.x},{v.y}")
+
+def step (line : String) : String :=
+  match words line with
+  | "seg" :: rest =>
+    match ints rest with
+    | some [ax, ay, bx, by', cx, cy, dx, dy] =>
+      let s := Seg.ofEnds ⟨ax, ay⟩ ⟨bx, by'⟩
+      let t := Seg.ofEnds ⟨cx, cy⟩ ⟨dx, dy⟩
+      let c1 := s.intersectCase t
+      let c2 := t.intersectCase s
+      " ".intercalate [b01 (s.lt t), b01 (t.lt s), b01 (s == t), b01 (s.outsideXRange t), b01 (t.outsideXRange s),
+        b01 (s.yRangeOverlap t), b01 (t.yRangeOverlap s), showIsect c1, showIsect c2, "#", caseName c1, caseName c2]
+    | _ => "bad-op"
+  | "list" :: rest =>
+    match (ints rest).bind segsOfInts with
+    | some l =>
+      let sorted := sortSegs l
+      let (e, pairs, ov) := eraseDuplicatesFull sorted
+      s!"sorted={showSegs sorted} erased={showSegs e} pairs={pairs} overlap={ov} ix={findIntersections e}"
+    | none => "bad-op"
+  | "extract" :: rest =>
+    match rest.mapM parseNode with
+    | some w => s!"segs={showSegs (extractSegments w)} invalid={countInvalid w} dupnodes={countDupNodesFrom none w}"
+    | none => "bad-op"
+  | "ring" :: k :: rest =>
+    match (ints rest).bind pointsOfInts with
+    | some pts =>
+      let r := ringOfPoints pts
+      let f := r.fixDirection (k == "o")
+      s!"sum={r.sum} cw={b01 r.isCw} fixed={showPoints f.points} fsum={f.sum}"
+    | none => "bad-op"
+  | "asm" :: mode :: cfg :: rest =>
+    match parseWays rest, cfg.toNat? with
+    | some ways, some cfg =>
+      let ws := effectiveWays mode ways
+      let inv := (ws.map countInvalid).foldl (· + ·) 0
+      if inv > 0 && cfg / 4 % 2 == 0 then s!"invalid={inv}"
+      else
+        let p := preCheck (allSegments ws)
+        s!"invalid={inv} nodes={p.nodes} pairs={p.pairs} overlap={p.overlapping} ix={p.intersections} open={p.openRings} touching={p.touching} remaining={p.remaining}"
+    | _, _ => "bad-op"
+  | "judge" :: mode :: _cfg :: rest =>
+    let wayToks := rest.takeWhile (· != "##")
+    match parseWays wayToks, (rest.dropWhile (· != "##")).drop 1 with
+    | some ways, [ringTok] =>
+      match parseMP ringTok with
+      | some mp =>
+        let v := judge (allSegments (effectiveWays mode ways)) mp
+        if v.ok then "ok" else "bad:" ++ ",".intercalate v.failing
+      | none => "bad-op"
+    | _, _ => "bad-op"
+  | _ => "bad-op"
+
+def main : IO Unit := loopPure step
